@@ -560,7 +560,7 @@ theorem gateway_scrubOrder_single {c : PCtx} {cfg : Exec.ExecCfg} {op : Op} {rv 
     (hplan : plan c op = .ok (steps, [(path, [(T, fs)])])) (down : Exec.Downstream)
     (σ : Scrub → Scrub) (hσ : ScrubReorder σ) :
     Exec.gateway c cfg op rv down σ = Exec.gateway c cfg op rv down id := by
-  unfold Exec.gateway
+  unfold Exec.gateway Exec.gatewayCore Exec.gatewayCoreWith
   rw [hplan]
   simp only [reorder_single hσ, id]
 
